@@ -4,8 +4,9 @@ import Acra.Lemmas.SrcTieGolay
 import Acra.Lemmas.SrcTieGolayTables
 import Acra.Props.C11.SrcTie
 import Acra.Props.C11.Golay
+import Acra.Lemmas.SrcTieNorm
 namespace Acra.Props.C11
-open Acra Acra.Py Acra.Lemmas.SrcTieGolay Acra.Lemmas.SrcTieGolayTables
+open Acra Acra.Py Acra.Lemmas.SrcTieGolay Acra.Lemmas.SrcTieGolayTables Acra.Lemmas.SrcTieNorm
 
 /-! Source tie (C11 / C20): the decode tables.  `Golay._initgolaydecode` writes three instance tables in nested loops;
     the translator returns their final values (`mutates=` in the SRC table).  The theorems below show that, started on
@@ -40,17 +41,17 @@ def cellE (x : Nat) : Int := ((Model.Golay.initEntry Gen.Golay.H_P x (0, 0, 0)).
 def cellC (x : Nat) : Int := ((Model.Golay.initEntry Gen.Golay.H_P x (0, 0, 0)).2.2 : Nat)
 
 /-- the body of the innermost loop of `_initgolaydecode` (as the translator emits it), for the proof below -/
-def stepK (i j : Int) (st : List Int × List Int) (k : Int) : R (List Int × List Int) :=
+@[reducible] def stepK (val : Int → Int) (i j : Int) (st : List Int × List Int) (k : Int) : R (List Int × List Int) :=
   Gen.Src.Golay.Golay._syndrome (pyList Model.Golay.synTable) (bor (bor (shl 1 i) (shl 1 j)) (shl 1 k)) >>= fun t13 =>
-  setItem st.1 t13 (band (shr (bor (bor (shl 1 i) (shl 1 j)) (shl 1 k)) 12) 4095) >>= fun t14 =>
+  setItem st.1 t13 (val (bor (bor (shl 1 i) (shl 1 j)) (shl 1 k))) >>= fun t14 =>
   setItem st.2 t13 (Gen.Src.Golay.Golay._onesincode (bor (bor (shl 1 i) (shl 1 j)) (shl 1 k)) 24 (by decide)) >>= fun t15 =>
   (Except.ok (t14, t15) : R (List Int × List Int))
 
-def stepJ (i : Int) (st : List Int × List Int) (j : Int) : R (List Int × List Int) :=
-  List.foldlM (stepK i j) (st.1, st.2) (Py.range 24) >>= fun st17 => .ok (st17.1, st17.2)
+@[reducible] def stepJ (val : Int → Int) (i : Int) (st : List Int × List Int) (j : Int) : R (List Int × List Int) :=
+  List.foldlM (stepK val i j) (st.1, st.2) (Py.range 24) >>= fun st17 => .ok (st17.1, st17.2)
 
-def stepI (st : List Int × List Int) (i : Int) : R (List Int × List Int) :=
-  List.foldlM (stepJ i) (st.1, st.2) (Py.range 24) >>= fun st19 => .ok (st19.1, st19.2)
+@[reducible] def stepI (val : Int → Int) (st : List Int × List Int) (i : Int) : R (List Int × List Int) :=
+  List.foldlM (stepJ val i) (st.1, st.2) (Py.range 24) >>= fun st19 => .ok (st19.1, st19.2)
 
 set_option maxRecDepth 4000 in
 theorem src_Golay_initgolaydecode :
@@ -64,6 +65,22 @@ theorem src_Golay_initgolaydecode :
     simp only []
     rw [setItem_natCast _ _ _ (by rw [mk_length _ _ _ (by omega)]; exact hk), ok_bind]
     have hl : ∀ f, k < (mk 4096 f k).length := fun f => by rw [mk_length _ _ _ (by omega)]; exact hk
+    -- the bit test of the row loop, in whatever form it is written, is brought to `(x >> (11 - i)) & 1` for the twelve
+    -- indices the loop visits
+    rw [foldlM_congr_mem _ (fun (st7 : List Int × List Int × List Int) (i : Int) =>
+        (if band (shr (k : Int) (11 - i)) 1 ≠ 0 then
+          (getItem st7.1 (k : Int) >>= fun t2 =>
+            setItem st7.1 (k : Int) (bxor t2 (intAt Gen.Src.Golay.H_P i)) >>= fun t3 =>
+            setItem st7.2.1 (k : Int) 4 >>= fun t4 =>
+            setItem st7.2.2 (k : Int) 4095 >>= fun t5 =>
+            (Except.ok (t3, t4, t5) : R (List Int × List Int × List Int)))
+        else Except.ok (st7.1, st7.2.1, st7.2.2)) >>= fun st6 => Except.ok (st6.1, st6.2.1, st6.2.2))
+      (Py.range 12) _ (by
+        intro st7 i hi
+        obtain ⟨n, hn, rfl⟩ := mem_range_lit 12 12 _ rfl hi
+        first
+          | rfl
+          | (simp only [bit_forms k n hn]))]
     rw [foldlM_cell3 k (fun i t => if band (shr (k : Int) (11 - i)) 1 ≠ 0
         then (bxor t.1 (intAt Gen.Src.Golay.H_P i), 4, 4095) else t) _ ?hinner (Py.range 12) _ _ _
         (by simpa using hl cellS) (hl cellE) (hl cellC), ok_bind]
@@ -96,11 +113,27 @@ theorem src_Golay_initgolaydecode :
     rw [pyList_set, pyList_ofFn (fun x => (Model.Golay.initEntry Gen.Golay.H_P x (0, 0, 0)).2.2)]; rfl
   simp only [hS, hE, hC]
   -- the triple loop: every pass is one pair of in-range stores (`applyW`), under the invariant "both tables have 4096 cells"
+  -- the value stored in CorrectTable: `(error >> 12) & 0xfff`, or any expression equal to it on 24-bit patterns
+  suffices hval : ∀ (val : Int → Int), (∀ e : Nat, e < 2 ^ 24 → val (e : Int) = (((e >>> 12) &&& 0xfff : Nat) : Int)) →
+      (List.foldlM (stepI val) (pyList Model.Golay.corTable0, pyList Model.Golay.errTable0) (Py.range 24) >>= fun st21 =>
+        (Except.ok (pyList Model.Golay.synTable, st21.1, st21.2) : R (List Int × List Int × List Int))) =
+      Except.ok (pyList Model.Golay.synTable, pyList Model.Golay.corTable, pyList Model.Golay.errTable) by
+    have hv1 : ∀ e : Nat, e < 2 ^ 24 → band (shr (e : Int) 12) 4095 = (((e >>> 12) &&& 0xfff : Nat) : Int) := fun e _ => by
+      simp only [shr_natCast, band_natCast_lit, toNat_lit]
+    have hv2 : ∀ e : Nat, e < 2 ^ 24 → shr (e : Int) 12 = (((e >>> 12) &&& 0xfff : Nat) : Int) := fun e he => by
+      simp only [shr_natCast, toNat_lit, Int.natCast_inj]
+      have : e >>> 12 < 4096 := by rw [Nat.shiftRight_eq_div_pow]; omega
+      rw [and_fff, Nat.mod_eq_of_lt this]
+    -- (`with_reducible`: the shapes are compared without unfolding the prelude, so a shape that does not fit fails at once)
+    first
+      | with_reducible exact hval (fun e => band (shr e 12) 4095) hv1
+      | with_reducible exact hval (fun e => shr e 12) hv2
+  intro val hval
   have hk : ∀ (i j : Nat), i < 24 → j < 24 → ∀ (st : List Int × List Int) (k : Nat), k < 24 →
       (st.1.length = 4096 ∧ st.2.length = 4096) →
-      stepK i j st k = .ok (applyW st (i, j, k)) ∧
+      stepK val i j st k = .ok (applyW st (i, j, k)) ∧
       ((applyW st (i, j, k)).1.length = 4096 ∧ (applyW st (i, j, k)).2.length = 4096) := by
-    intro i j _ _ st k _ hst
+    intro i j hi' hj' st k hk' hst
     unfold stepK
     have he : bor (bor (shl 1 (i : Int)) (shl 1 (j : Int))) (shl 1 (k : Int)) = ((Model.Golay.pat i j k : Nat) : Int) := by
       simp only [shl_lit, Int.toNat_natCast, bor_natCast]; rfl
@@ -115,31 +148,35 @@ theorem src_Golay_initgolaydecode :
     refine ⟨?_, by simp [applyW, hst.1], by simp [applyW, hst.2]⟩
     have h24 : Gen.Src.Golay.Golay._onesincode ((Model.Golay.pat i j k : Nat) : Int) 24 (by decide) = ((Model.Golay.onesincode (Model.Golay.pat i j k) 24 : Nat) : Int) :=
       src_Golay_onesincode (Model.Golay.pat i j k) 24 (by decide)
-    simp only [shr_natCast, band_natCast_lit, toNat_lit]
-    rw [h24]
+    have hp24 : Model.Golay.pat i j k < 2 ^ 24 := by
+      unfold Model.Golay.pat
+      have h2 : ∀ n, n < 24 → 1 <<< n < 2 ^ 24 := by
+        intro n hn; rw [Nat.one_shiftLeft]; exact Nat.pow_lt_pow_right (by decide) hn
+      exact Nat.or_lt_two_pow (Nat.or_lt_two_pow (h2 i hi') (h2 j hj')) (h2 k hk')
+    rw [hval _ hp24, h24]
     rfl
   let P : List Int × List Int → Prop := fun st => st.1.length = 4096 ∧ st.2.length = 4096
   have hj : ∀ (i : Nat), i < 24 → ∀ (st : List Int × List Int) (j : Nat), j < 24 → P st →
-      stepJ i st j = .ok ((List.range 24).foldl (fun st k => applyW st (i, j, k)) st) ∧
+      stepJ val i st j = .ok ((List.range 24).foldl (fun st k => applyW st (i, j, k)) st) ∧
       P ((List.range 24).foldl (fun st k => applyW st (i, j, k)) st) := by
     intro i hi st j hj hP
-    have := foldlM_range' 24 24 rfl P (stepK i j) (fun st k => applyW st (i, j, k)) (hk i j hi hj) st hP
+    have := foldlM_range' 24 24 rfl P (stepK val i j) (fun st k => applyW st (i, j, k)) (hk i j hi hj) st hP
     unfold stepJ
     rw [pair_eta, this.1, ok_bind, pair_eta]
     exact ⟨Eq.refl _, this.2⟩
   have hi : ∀ (st : List Int × List Int) (i : Nat), i < 24 → P st →
-      stepI st i = .ok ((List.range 24).foldl (fun st j =>
+      stepI val st i = .ok ((List.range 24).foldl (fun st j =>
         (List.range 24).foldl (fun st k => applyW st (i, j, k)) st) st) ∧
       P ((List.range 24).foldl (fun st j => (List.range 24).foldl (fun st k => applyW st (i, j, k)) st) st) := by
     intro st i hi' hP
-    have := foldlM_range' 24 24 rfl P (stepJ i) (fun st j => (List.range 24).foldl (fun st k => applyW st (i, j, k)) st)
+    have := foldlM_range' 24 24 rfl P (stepJ val i) (fun st j => (List.range 24).foldl (fun st k => applyW st (i, j, k)) st)
       (hj i hi') st hP
     unfold stepI
     rw [pair_eta, this.1, ok_bind, pair_eta]
     exact ⟨Eq.refl _, this.2⟩
   have hP0 : P (pyList Model.Golay.corTable0, pyList Model.Golay.errTable0) := by
     constructor <;> simp [pyList_length, Model.Golay.corTable0, Model.Golay.errTable0, Gen.Golay.GOLAY_SIZE]
-  have hall := foldlM_range' 24 24 rfl P stepI _ hi _ hP0
+  have hall := foldlM_range' 24 24 rfl P (stepI val) _ hi _ hP0
   have hfl : (List.range 24).foldl (fun st i => (List.range 24).foldl (fun st j =>
         (List.range 24).foldl (fun st k => applyW st (i, j, k)) st) st)
         (pyList Model.Golay.corTable0, pyList Model.Golay.errTable0) =
@@ -154,8 +191,6 @@ theorem src_Golay_initgolaydecode :
     exact Eq.refl _
   have hX := hfl.trans ((pyList_applyWrites' Model.Golay.triples Model.Golay.corTable0 Model.Golay.errTable0).trans hT)
   rw [hX] at hall
-  show (List.foldlM stepI (pyList Model.Golay.corTable0, pyList Model.Golay.errTable0) (Py.range 24) >>= fun st21 =>
-    (Except.ok (pyList Model.Golay.synTable, st21.1, st21.2) : R (List Int × List Int × List Int))) = _
   rw [hall.1, ok_bind]
 
 
